@@ -58,12 +58,14 @@ def special(ctx, merged_unused):
                 ctx["violations"].append({"kind": "abort", "message": f"racing process (seed {job[0]}, threads {job[3]}, delay {job[4]} us) died: {r}", "case": {"seed": job[0], "threads": job[3]}, "known": None})
     # steady-state hammer: many contexts on the same few days, every answer compared with the
     # sequential one (shared state between evaluations of different contexts)
-    hammer_jobs = [(4096, 16, 120_000), (64, 16, 120_000), (4096, 4, 300_000), (1024, 32, 60_000)]
+    # profile "sun": a ladder of key counts (a shared table of unknown size is hit hardest when it holds
+    # about as many keys as it has places: hits AND evictions are both frequent)
+    hammer_jobs = [(n_, 16, 120_000, "sun") for n_ in (64, 256, 512, 1024, 2048, 4096, 8192)] + [(4096, 4, 300_000, "mixed"), (1024, 32, 60_000, "mixed"), (4096, 16, 100_000, "mixed")]
     if tier != "quick":
-        hammer_jobs = [(p_, t_, int(i_ * 4 * ctx["scale"]) or 1000) for rep_ in range(6) for (p_, t_, i_) in hammer_jobs]
-    for hi, (places, threads, iters) in enumerate(hammer_jobs):
+        hammer_jobs = [(p_, t_, int(i_ * 4 * ctx["scale"]) or 1000, pr_) for rep_ in range(6) for (p_, t_, i_, pr_) in hammer_jobs]
+    for hi, (places, threads, iters, profile) in enumerate(hammer_jobs):
         out = os.path.join(wdir, f"hammer{hi}.json")
-        cmd = [binary, "C18", "--seed", str(seed * 1000 + hi), "--extra", "mode=hammer", "--extra", f"places={places}", "--extra", f"threads={threads}", "--extra", f"iters={iters}", "--out", out]
+        cmd = [binary, "C18", "--seed", str(seed * 1000 + hi), "--extra", "mode=hammer", "--extra", f"places={places}", "--extra", f"threads={threads}", "--extra", f"iters={iters}", "--extra", f"profile={profile}", "--out", out]
         try:
             p = _run(cmd, timeout=1800)
         except subprocess.TimeoutExpired:
@@ -134,7 +136,7 @@ def tsan(ctx, cov):
         if k % 10 == 0:
             # the steady-state hammer under the sanitizer as well (smaller: TSan costs 5-7x)
             hout = os.path.join(wdir, f"h{k}.json")
-            _run([binary, "C18", "--seed", str(s + 7), "--extra", "mode=hammer", "--extra", "places=512", "--extra", "threads=8", "--extra", "iters=15000", "--out", hout], env=env2, timeout=3600)
+            _run([binary, "C18", "--seed", str(s + 7), "--extra", "mode=hammer", "--extra", "places=512", "--extra", "threads=8", "--extra", "iters=15000", "--extra", "profile=sun", "--out", hout], env=env2, timeout=3600)
             if os.path.exists(hout):
                 r = json.load(open(hout))
                 ctx["violations"] += r["violations"]
